@@ -58,6 +58,7 @@ func (w *wrapper) Invoke(ctx context.Context, method string, args any, reply any
 	}
 
 	ctx, clientServerStream, ss, cs := w.startStream(ctx, method)
+	clientServerStream.singleResponse = true
 	go func() {
 		res, err := matched.Handler(w.srv, ctx, func(dst any) error {
 			return ss.RecvMsg(dst)
@@ -102,6 +103,7 @@ func (w *wrapper) NewStream(ctx context.Context, desc *grpc.StreamDesc, method s
 	}
 
 	ctx, clientServerStream, ss, cs := w.startStream(ctx, method)
+	clientServerStream.singleResponse = !desc.ServerStreams
 	go func() {
 		err := matched.Handler(w.srv, ss)
 		clientServerStream.Close(err)
